@@ -354,13 +354,13 @@ Definition solve_checked (pb : Pb) : option (list (list Z)) :=
   | Fail _ => None
   end.
 
-(* argmax statement of toAssignment, executable form (used on the C++ assignment) *)
+(* argmax statement of toAssignment, executable form (used on the C++ assignment): the assigned sink
+   receives at least as much of the source as any other sink (C13 does not say which one among equals) *)
 Definition argmaxb (pb : Pb) (x : list (list Z)) (a : list nat) : bool :=
   (length a =? nsrc pb)%nat
   && forallb (fun i => let r := nth i a 0%nat in
                        (r <? nsnk pb)%nat
-                       && forallb (fun k => get2 x k i <=? get2 x r i) (snks_of pb)
-                       && forallb (fun k => get2 x k i <? get2 x r i) (seq 0 r))
+                       && forallb (fun k => get2 x k i <=? get2 x r i) (snks_of pb))
              (srcs_of pb).
 
 (* ------------------------------------------------------------------ small finite domains (bounded theorem) *)
